@@ -1,4 +1,5 @@
-\* negative twin: the request-local mark of the resolver's load-shed SERVFAIL never reaches dns64; NeverOverFailure must fail
+\* negative twin: a client_networks list of unusable entries admits every client (as built before the repair);
+\* must violate SynthOnlyWhenAllowed
 CONSTANTS
   SoaSet <- MCSoaSet
   ARecSets <- MCARecSets
@@ -12,9 +13,8 @@ CONSTANTS
   PtrLookups <- MCPtrLookups
   KeepADOnStrippedFallback = FALSE
   ZeroNegTtlIgnored = FALSE
-  AllBadNetsOpen = FALSE
-  ShedMarkLost <- MCTrue
+  AllBadNetsOpen = TRUE
 INIT Init
 NEXT Next
-INVARIANTS NeverOverFailure
+INVARIANTS SynthOnlyWhenAllowed PtrOnlyWhenAllowed
 CHECK_DEADLOCK FALSE
